@@ -53,7 +53,7 @@ CHECKS.update({
    note="Digest read from the inner store at quiescent points; time-derived statistics excluded.",
    technique=TECH+"refused requests injected at arbitrary points of valid sessions; state-digest equality + follow-up nonce", design="4 C06"),
  "C07": dict(level="exploration",
-   text=W+"Credit accrues through real billing, deposits come from the simulated chain; valid, repeated and below-minimum withdrawals, fee none/constant, settlement failing at chosen attempts: paid amount = balance - fee exactly once, nothing left to withdraw afterwards (so nothing is paid twice), nothing paid or changed on refusal or failure. Racing withdrawals are covered by c07_withdraw_race; c07_withdraw_faults injects one storage error (nonce save, balance read, credit debit) into a withdrawal: a withdrawal that returns an error has paid nothing and changed no balance. c07_contract_seq replaces the stubs by the production wiring: PaymentService over payment.ContractPayment with the real vipnode pool contract on go-ethereum's simulated chain (blocks mined when the scenario decides, event subscription that can lose its connection, requests under several spellings of the wallet address, a wallet that exits on chain by itself, a new subscription that takes time to exist, a deposit that is looked at while pending and never mined, answers to balance queries and contract events that are held back for a few operations; the node dropping its pending transactions; the acknowledgement of a submitted settlement getting lost; two histories in three end with both wallets asking for their money once more): whatever left the contract is covered by what the withdrawing wallets deposited and earned, a wallet that has just been paid out has deposit 0 and credit 0 on the pool's books when asked straight afterwards, and once nothing is in flight any more the pool's view of every deposit equals the contract's.",
+   text=W+"Credit accrues through real billing, deposits come from the simulated chain; valid, repeated and below-minimum withdrawals, fee none/constant, settlement failing at chosen attempts: paid amount = balance - fee exactly once, nothing left to withdraw afterwards (so nothing is paid twice), nothing paid or changed on refusal or failure. Racing withdrawals are covered by c07_withdraw_race (in a third of the runs every racer names the wallet in another spelling of the same address); c07_withdraw_faults injects one storage error (nonce save, balance read, credit debit) into a withdrawal: a withdrawal that returns an error has paid nothing and changed no balance. c07_contract_seq replaces the stubs by the production wiring: PaymentService over payment.ContractPayment with the real vipnode pool contract on go-ethereum's simulated chain (blocks mined when the scenario decides, event subscription that can lose its connection, requests under several spellings of the wallet address, a wallet that exits on chain by itself, a new subscription that takes time to exist, a deposit that is looked at while pending and never mined, answers to balance queries and contract events that are held back for a few operations; the node dropping its pending transactions; the acknowledgement of a submitted settlement getting lost; one history in two ends with both wallets asking for their money once more): whatever left the contract is covered by what the withdrawing wallets deposited and earned, a wallet that has just been paid out has deposit 0 and credit 0 on the pool's books when asked straight afterwards, and once nothing is in flight any more the pool's view of every deposit equals the contract's.",
    note="Settlement is the SimSettle stub (sets the on-chain deposit to newBalance on success).",
    technique=TECH+"accrual/withdrawal histories with settlement faults; races at store and settlement yield points", design="4 C07"),
  "C08": dict(level="exploration",
